@@ -16,13 +16,18 @@ fn atom(a: &Value) -> ConditionGroup {
     ConditionGroup::single(Condition::new(format!("{}.v", f), Operator::Equal, RV::Boolean(b)))
 }
 
-pub fn mk_rule(i: usize, body: &Value, hf: &str, hv: &str) -> Rule {
+pub fn mk_rule(i: usize, body: &Value, hf: &str, hv: &str, bad: bool) -> Rule {
     let c = match body["k"].as_str().unwrap() {
         "one" => atom(&body["a"]),
         "and" => ConditionGroup::and(atom(&body["a"]), atom(&body["b"])),
         _ => ConditionGroup::or(atom(&body["a"]), atom(&body["b"])),
     };
-    Rule::new(format!("r{}", i), c, vec![ActionType::Set { field: format!("{}.v", hf), value: RV::Boolean(hv == "T") }])
+    let mut actions = vec![ActionType::Set { field: format!("{}.v", hf), value: RV::Boolean(hv == "T") }];
+    if bad {
+        // the rule's action list fails after the assignment (method call on an object that does not exist)
+        actions.push(ActionType::MethodCall { object: "Nope".to_string(), method: "boom".to_string(), args: vec![] });
+    }
+    Rule::new(format!("r{}", i), c, actions)
 }
 
 pub fn mk_facts(m: &HashMap<String, String>) -> Facts {
@@ -94,7 +99,7 @@ impl Model for BW {
         match l["op"].as_str().unwrap() {
             "addrule" => {
                 let i = self.rules.len() + 1;
-                self.rules.push(mk_rule(i, &l["body"], l["hf"].as_str().unwrap(), l["hv"].as_str().unwrap()));
+                self.rules.push(mk_rule(i, &l["body"], l["hf"].as_str().unwrap(), l["hv"].as_str().unwrap(), l["bad"].as_bool().unwrap_or(false)));
                 self.pengine = None;
                 json!({"ok": true})
             }
@@ -183,8 +188,9 @@ pub fn cmd_bwrec(args: &Args) -> i32 {
             let body = json!({"k": k, "a": a, "b": if k == "one" { a.clone() } else { b }});
             let hf = fields[rng.below(nf)];
             let hv = ["T", "F"][rng.below(4) / 3];
-            rules.push(mk_rule(i + 1, &body, hf, hv));
-            rules_json.push(json!({"body": body, "hf": hf, "hv": hv}));
+            let bad = !definite && rng.chance(1, 6);
+            rules.push(mk_rule(i + 1, &body, hf, hv, bad));
+            rules_json.push(json!({"body": body, "hf": hf, "hv": hv, "bad": bad}));
         }
         let mut facts = HashMap::new();
         let mut facts_json = serde_json::Map::new();
